@@ -136,7 +136,7 @@ func cmdCheck(args []string) int {
 			undec = append(undec, "function under contract not found: "+key)
 			continue
 		}
-		sp := ss.Funcs[key]
+		sp := ss.specFor(f)
 		if sp == nil {
 			undec = append(undec, "no contract for "+key)
 			continue
